@@ -6,12 +6,15 @@
 fn corollary_normalise_agrees_with_evaluate<'a>(term: &Term<'a>)
     requires
         s_ok(view(*term), 0, BOUND() as nat),
-        s_closed_at(view(*term), 0),
+        s_cl(view(*term), 0),
 {
+    proof { reveal(s_cl); }
     let mut ctx: Vec<Option<(Rc<Term<'a>>, usize)>> = Vec::new();
+    proof { reveal(ctx_ok); reveal(s_cl); }
     let w = normalize_weak_head(term, &mut ctx);
     let e = evaluate(term);
     proof {
+        assert(ctx_view(Seq::<Option<(Rc<Term<'a>>, usize)>>::empty()) =~= g_empty()) by { reveal(ctx_view); }
         if e is Ok {
             let v = e->Ok_0;
             if s_ground(view(v)) && s_ground(view(w)) {
@@ -26,8 +29,8 @@ fn corollary_normalise_agrees_with_evaluate<'a>(term: &Term<'a>)
 fn corollary_unify_reflexive<'a>(term: &Term<'a>, definitions_context: &mut Vec<Option<(Rc<Term<'a>>, usize)>>)
     requires
         s_ok(view(*term), 0, BOUND() as nat),
-        s_closed_at(view(*term), old(definitions_context)@.len()),
-        ctx_plain(old(definitions_context)@),
+        s_cl(view(*term), old(definitions_context)@.len()),
+        ctx_ok(old(definitions_context)@),
 {
     let r = unify(term, term, definitions_context);
     assert(r);
@@ -45,8 +48,9 @@ fn witness_u8() {
     let e = syntactically_equal(&t, &a);
     let cond = Term { source_range: None, variant: If(Rc::new(t), Rc::new(a), Rc::new(b)) };
     assert(view(cond) == STerm::Node(Kind::If, s3(view(t), view(a), view(b))));
-    proof { assert forall|x: nat| !#[trigger] s_has_fv(view(cond), 0, x) by {} }
+    proof { assert forall|x: nat| !#[trigger] s_has_fv(view(cond), 0, x) by {} reveal(s_cl); assert(s_cl(view(cond), 0)); }
     let mut ctx: Vec<Option<(Rc<Term<'static>>, usize)>> = Vec::new();
+    proof { reveal(ctx_ok); reveal(s_cl); }
     let w = normalize_weak_head(&cond, &mut ctx);
     let u = unify(&cond, &cond, &mut ctx);
     corollary_normalise_agrees_with_evaluate(&cond);
@@ -67,14 +71,16 @@ fn canary_normalize_weak_head() {
     let t = Term { source_range: None, variant: True };
     assert(view(t) == STerm::Node(Kind::True, s0()));
     let mut ctx: Vec<Option<(Rc<Term<'static>>, usize)>> = Vec::new();
+    proof { reveal(ctx_ok); reveal(s_cl); }
     let w = normalize_weak_head(&t, &mut ctx);
-    assert(!s_whnf(view(w)));
+    assert(!s_whnf(ctx_view(ctx@), view(w)));
 }
 fn canary_unify() {
     broadcast use {group_ok, group_fv};
     let t = Term { source_range: None, variant: True };
     assert(view(t) == STerm::Node(Kind::True, s0()));
     let mut ctx: Vec<Option<(Rc<Term<'static>>, usize)>> = Vec::new();
+    proof { reveal(ctx_ok); reveal(s_cl); }
     let r = unify(&t, &t, &mut ctx);
     assert(!r);
 }
